@@ -20,10 +20,11 @@
    Variable holding a Zahl (VZ) / a Text (VT) = the held value.                                                                         *)
 EXTENDS Integers, Sequences, FiniteSets
 
-Kinds == {"Z", "K", "B", "W", "C", "T", "LZ", "LT", "S", "VZ", "VT"}
+Kinds == {"Z", "K", "B", "W", "C", "T", "LZ", "LT", "LB", "LK", "LW", "LC", "S", "VZ", "VT"}
 IsPrim(k) == k \in {"Z", "K", "B", "W", "C"}
 CType(k) == CASE k = "Z" -> "ddpint" [] k = "K" -> "ddpfloat" [] k = "B" -> "ddpbyte" [] k = "W" -> "ddpbool" [] k = "C" -> "ddpchar"
-              [] k = "T" -> "ddpstring" [] k = "LZ" -> "ddpintlist" [] k = "LT" -> "ddpstringlist" [] k = "S" -> "Misch" [] OTHER -> "ddpany"
+              [] k = "T" -> "ddpstring" [] k = "LZ" -> "ddpintlist" [] k = "LT" -> "ddpstringlist" [] k = "LB" -> "ddpbytelist" [] k = "LK" -> "ddpfloatlist"
+              [] k = "LW" -> "ddpboollist" [] k = "LC" -> "ddpcharlist" [] k = "S" -> "Misch" [] OTHER -> "ddpany"
 
 ByPointer(p) == p.ref \/ ~IsPrim(p.k)
 HasOutPointer(sig) == sig.ret # "none" /\ ~IsPrim(sig.ret)
@@ -43,6 +44,10 @@ Written(k, v) ==
       [] k = "T" -> Append(v, 33)
       [] k = "LZ" -> <<ZOf(Len(v))>>
       [] k = "LT" -> <<>>
+      [] k = "LB" -> [i \in 1..Len(v) |-> (v[i] + 1) % 256]          \* every element in place
+      [] k = "LK" -> [i \in 1..Len(v) |-> v[i] + 64]
+      [] k = "LW" -> [i \in 1..Len(v) |-> ~v[i]]
+      [] k = "LC" -> <<Len(v) + 65>>                                    \* replaced by a one-element list
       [] k = "S" -> <<v[1], NotZ(v[2]), v[3], Append(v[4], 33), ~v[5], v[6]>>
       [] k = "VZ" -> NotZ(v)
       [] OTHER -> Append(v, 33)
@@ -51,6 +56,10 @@ Known(k) ==
       [] k = "T" -> <<122, 117, 114, 252, 99, 107>>
       [] k = "LZ" -> <<ZOf(3), NotZ(ZOf(3))>>
       [] k = "LT" -> <<<<97>>, <<>>, <<228, 8364>>>>
+      [] k = "LB" -> <<0, 255, 128>>
+      [] k = "LK" -> <<160, 0 - 48>>
+      [] k = "LW" -> <<TRUE, FALSE, TRUE>>
+      [] k = "LC" -> <<97, 8364, 128512>>
       [] k = "S" -> <<120, ZOf(77), 9, <<115, 116>>, TRUE, 96>>
       [] k = "VZ" -> ZOf(5)
       [] OTHER -> <<118, 97, 114>>
